@@ -5,8 +5,10 @@
 package main
 
 import (
+	"bytes"
 	"fmt"
 	"os"
+	"time"
 
 	fr "github.com/brocaar/lorawan/applayer/fragmentation"
 	"verifharness/internal/cases"
@@ -120,6 +122,9 @@ func encodeObs(data []byte, size, red int) (string, [][]byte, string) {
 	var msg string
 	pan := false
 	func() {
+		cases.Begin(fmt.Sprintf("fragmentation.Encode:len=%d:size=%d:red=%d", len(data), size, red),
+			map[string]interface{}{"api": "fragmentation.Encode", "data": fmt.Sprintf("%x", data), "fragmentSize": size, "redundancy": red})
+		defer cases.End()
 		defer func() {
 			if r := recover(); r != nil {
 				pan = true
@@ -190,6 +195,111 @@ func recoverCase(s *cases.Set, r *cq.RNG, m, size, red int, nKeep int, kind stri
 			"decoded": fmt.Sprintf("%x", got)}})
 }
 
+func cloneRows(rows [][]byte) [][]byte {
+	out := make([][]byte, len(rows))
+	for i, r := range rows {
+		out[i] = append([]byte{}, r...)
+	}
+	return out
+}
+
+func rowsEqual(a, b [][]byte) bool {
+	if len(a) != len(b) {
+		return false
+	}
+	for i := range a {
+		if !bytes.Equal(a[i], b[i]) {
+			return false
+		}
+	}
+	return true
+}
+
+// exact returns a copy whose capacity equals its length
+func exact(b []byte) []byte {
+	out := make([]byte, len(b))
+	copy(out, b)
+	return out[:len(b):len(b)]
+}
+
+// memCase: the block is handed to Encode as a sub-slice of a larger caller-owned buffer
+// with `spare` bytes of capacity behind it (a sentinel pattern). Encode must not write to
+// the caller's memory (neither the block nor what lies behind it), must return what it
+// returns for a private copy, and the parity fragments it returns must not share memory
+// with the caller's buffer. (The data fragments of the unchanged code are sub-slices of
+// the argument - that is mirrored, not checked.)
+func memCase(s *cases.Set, r *cq.RNG, m, size, red, spare int) {
+	n := m * size
+	if size <= 0 {
+		n = m
+	}
+	backing := make([]byte, n+spare)
+	copy(backing, r.Bytes(n))
+	for i := n; i < len(backing); i++ {
+		backing[i] = byte(0xA5 ^ i)
+	}
+	orig := append([]byte{}, backing...)
+	arg := backing[:n : n+spare]
+	key := fmt.Sprintf("frags=%d:size=%d:red=%d:spare=%d:data=%s", m, size, red, spare, hexShort(orig[:n]))
+	rp := map[string]interface{}{"api": "fragmentation.Encode(buffer[:len(block)], fragmentSize, redundancy) with cap = len(block)+spare",
+		"block": fmt.Sprintf("%x", orig[:n]), "bytes_behind_block": fmt.Sprintf("%x", orig[n:]), "fragmentSize": size, "redundancy": red, "spare_capacity": spare}
+	_, refFr, _ := encodeObs(exact(orig[:n]), size, red)
+	ref := cloneRows(refFr)
+	o, got, _ := encodeObs(arg, size, red)
+	_ = o
+	gotCopy := cloneRows(got)
+	if !bytes.Equal(backing, orig) {
+		rp["buffer_after_call"] = fmt.Sprintf("%x", backing)
+		what := "fragmentation.Encode wrote to the caller's memory behind the data block (spare capacity of the argument)"
+		if !bytes.Equal(backing[:n], orig[:n]) {
+			what = "fragmentation.Encode modified the data block it was given"
+		}
+		s.Fail(cases.GoFail{Key: "encode-writes-caller-memory:" + key, What: what, Replay: rp})
+		return
+	}
+	if (refFr == nil) != (got == nil) || !rowsEqual(ref, gotCopy) {
+		s.Fail(cases.GoFail{Key: "encode-depends-on-capacity:" + key, What: "fragmentation.Encode returns different fragments for the same block depending on the spare capacity of the argument", Replay: rp})
+		return
+	}
+	// the caller reuses its buffer: the parity fragments must keep their value
+	for i := range backing {
+		backing[i] = ^backing[i]
+	}
+	for i := m; i < len(got) && size > 0; i++ {
+		if !bytes.Equal(got[i], ref[i]) {
+			rp["parity_index"] = i - m
+			s.Fail(cases.GoFail{Key: "encode-parity-aliases-caller-memory:" + key, What: "a parity fragment returned by fragmentation.Encode shares memory with the caller's buffer", Replay: rp})
+			return
+		}
+	}
+}
+
+// imageCase: an image is encoded block by block, in ascending order, each block a sub-slice
+// image[b*L:(b+1)*L] of the one image buffer; the fragments must be those of private copies
+// of the blocks and the image must be unchanged.
+func imageCase(s *cases.Set, r *cq.RNG, blocks, m, size, red int) {
+	L := m * size
+	image := r.Bytes(blocks * L)
+	orig := append([]byte{}, image...)
+	key := fmt.Sprintf("blocks=%d:frags=%d:size=%d:red=%d:image=%s", blocks, m, size, red, hexShort(orig))
+	rp := map[string]interface{}{"api": "for b := 0..blocks-1: fragmentation.Encode(image[b*L:(b+1)*L], fragmentSize, redundancy), L = frags*fragmentSize",
+		"image": fmt.Sprintf("%x", orig), "blocks": blocks, "fragmentSize": size, "redundancy": red}
+	for b := 0; b < blocks; b++ {
+		_, got, _ := encodeObs(image[b*L:(b+1)*L], size, red)
+		gotCopy := cloneRows(got)
+		_, ref, _ := encodeObs(exact(orig[b*L:(b+1)*L]), size, red)
+		if (ref == nil) != (got == nil) || !rowsEqual(ref, gotCopy) {
+			rp["block"] = b
+			s.Fail(cases.GoFail{Key: "encode-image-blocks:" + key, What: fmt.Sprintf("encoding the blocks of one image buffer in ascending order: block %d does not give the fragments of a private copy of that block (an earlier call wrote into the image)", b), Replay: rp})
+			return
+		}
+	}
+	if !bytes.Equal(image, orig) {
+		rp["image_after"] = fmt.Sprintf("%x", image)
+		s.Fail(cases.GoFail{Key: "encode-writes-caller-memory:image:" + key, What: "fragmentation.Encode modified the image buffer its blocks were sliced from", Replay: rp})
+	}
+}
+
 // identity data: row i carries bit i, so parity fragment y is the matrix line itself
 func identityData(m int) ([]byte, int) {
 	size := (m + 7) / 8
@@ -206,6 +316,7 @@ func main() {
 	s := cases.New("C19", dir, "LW.Corr.C19",
 		"fragment counts: every power of two up to 256, boundary and random others in 1..300; fragment sizes 1..64; redundancy 0..100 sampled; identity-pattern and random data; invalid sizes 0, -1, -2, non-dividing; random erasure patterns (full-rank and rank-deficient) decoded by an independent decoder; every case is non-trivial (distinct = distinct printed case)")
 	s.ShardSize = 12
+	s.Watchdog(3 * time.Second)
 
 	// ---- corpus: invalid sizes (witnesses of the size-0 / negative-size defect) ----
 	for _, sz := range []int{0, -1, -2, -64} {
@@ -329,6 +440,32 @@ func main() {
 		}
 		recoverCase(s, r, m, size, red, keep, "erasure")
 	}
+
+	// ---- caller-owned memory: spare capacity behind the block, images encoded block by block ----
+	nMem := 40
+	if thorough {
+		nMem = 1500
+	}
+	for i := 0; i < nMem; i++ {
+		m := 1 + r.Intn(24)
+		if i%4 == 0 {
+			m = pow2[r.Intn(6)]
+		}
+		size := 1 + r.Intn(16)
+		red := r.Intn(12)
+		if i%9 == 0 {
+			red = 0
+		}
+		for _, spare := range []int{0, 1, size, red * size, red*size + 1 + r.Intn(40), 2*red*size + 64} {
+			memCase(s, r, m, size, red, spare)
+		}
+		if i%6 == 0 { // invalid sizes must not write either
+			memCase(s, r, 5, []int{0, -1, -2}[r.Intn(3)], 1+r.Intn(4), 32)
+			memCase(s, r, 1, 2, 3, 32) // one byte, size 2: non-dividing
+		}
+		imageCase(s, r, 2+r.Intn(4), m, size, red)
+	}
+	s.Extra["memory_cases"] = "blocks passed as sub-slices with spare capacity {0, 1, size, red*size, more}; images encoded block by block; Go-side checks (go_fails)"
 
 	if err := s.Finish(); err != nil {
 		fmt.Fprintln(os.Stderr, err)
